@@ -260,7 +260,7 @@ Lemma timely_head np out e tau r :
     match e, out with
     | EPing, None => tau = np /\ np' = np + ping_period /\ out' = Some tau
     | EPong, Some p => p <= tau /\ np' = np /\ out' = None
-    | EPong, None => np' = np /\ out' = None
+    | EPong, None => np - ping_period <= tau /\ np' = np /\ out' = None
     | EPing, Some _ => False
     | _, _ => np' = np /\ out' = out
     end.
@@ -269,9 +269,8 @@ Proof.
   split; [exact Hb|]. unfold window_end.
   destruct e, out as [p|]; try discriminate;
     repeat (apply andb_true_iff in Ht; destruct Ht as [Ht ?]);
-    (split; [unfold_consts; lia|]); eauto 10.
-  - exists (np + ping_period), (Some tau). split; [assumption|]. repeat split; lia.
-  - exists np, None. split; [assumption|]. repeat split; lia.
+    (split; [unfold_consts; lia|]);
+    eexists; eexists; (split; [eassumption|]); repeat split; try reflexivity; lia.
 Qed.
 
 Lemma timely_step f np out c e tau r :
